@@ -421,6 +421,24 @@ def cases(tier):
             "shape": [3, 4, 5], "layout": "3d", "dtype": "uint8",
             "scaling": None, "ignore_scaling": False, "input_max": None,
             "second_run": True, "nontrivial": True})
+    # option combinations: colour / multi-channel layouts with sharding,
+    # and with value-mapping limits 0 and negative
+    for layout in ("rgb", "4d2", "4d3"):
+        for s in ("1,1,0", "2,3,1"):
+            out.append({"kind": "sharding", "affine": A, "shape": [4, 4, 4],
+                        "layout": layout, "dtype": "uint8", "scaling": None,
+                        "ignore_scaling": False, "input_max": None,
+                        "sharding": s, "gzip": True, "nontrivial": True})
+        for imax in (0.0, -1.0, 1e-9):
+            for shard in (None, "1,1,0"):
+                c = {"kind": "layout", "direction": "perm0", "affine": A,
+                     "shape": [3, 4, 2], "layout": layout, "dtype": "uint8",
+                     "scaling": None, "ignore_scaling": False,
+                     "input_max": imax, "nontrivial": True}
+                if shard:
+                    c["sharding"] = shard
+                    c["gzip"] = True
+                out.append(c)
     for s in ("1,1", "a,b,c", "1,1,0,0", "-1,1,0", "1;1;0"):
         out.append({"kind": "sharding", "affine": A, "shape": [4, 4, 4],
                     "layout": "3d", "dtype": "uint8", "scaling": None,
